@@ -19,7 +19,7 @@ ASSUMPTIONS = ['Linux flock semantics (descriptors are closed by the kernel befo
                'the Windows branch is not executable here']
 BUDGET = {'quick': 0, 'thorough': 0}
 SHARDS = {'quick': 16, 'thorough': 16}
-ENUM_EXHAUSTIVE = {'quick': 'every crash index of every scenario with 0 contenders; every 3rd index with 1 contender',
+ENUM_EXHAUSTIVE = {'quick': 'every crash index of every scenario with 0 contenders; every 3rd index with 1 contender, every 4th with 2',
                    'thorough': 'every crash index of every scenario with 0, 1 and 2 contenders'}
 ESSENTIAL = ['nontrivial']
 
@@ -37,8 +37,8 @@ def enumerate_cases(tier, shard=0, nshards=1):
     k = 0
     for name in P.SCENARIOS:
         m = _count(name)
-        for nc in ((0, 1) if tier == 'quick' else (0, 1, 2)):
-            step = 3 if (tier == 'quick' and nc) else 1
+        for nc in (0, 1, 2):
+            step = (3 if nc == 1 else 4) if (tier == 'quick' and nc) else 1
             for n in range(1, m + 1, step):
                 k += 1
                 if k % nshards == shard:
@@ -82,3 +82,18 @@ def run_case(case):
         cl.append('killed-while-locked')
     return Result(viol, nt, cl, {'killed_in': info, 'probe_ok': r['probe_ok'], 'probe_wait_s': round(r['probe_wait_s'], 5),
                                  'survivors': surv})
+
+
+def extra(tier, seed_, col):
+    """Report which executable lines of the Unix path the scenarios reach (so "every reachable line" is measurable)."""
+    want = P.executable_lines()
+    seen = set()
+    per = {}
+    for name in P.SCENARIOS:
+        n, lines = P.count_events(name, want_lines=True)
+        per[name] = n
+        seen |= lines
+    missing = sorted(want - seen)
+    col.notes['crash_point_line_coverage'] = [{
+        'executable_lines_unix_path': len(want), 'lines_reached_by_scenarios': len(want & seen),
+        'not_reached': missing, 'line_events_per_scenario': per}]
